@@ -93,6 +93,65 @@ func cfgTerm(s *an.State, v ssa.Value, d int) string {
 	return "?" + v.Name()
 }
 
+// configGetterSources walks a configuration-side value back through conversions, phis, struct fields (all stores to
+// the field in its package) and local variables, and returns the names of the generated config getters (methods
+// named Get* declared in a *.pb.go file) it can originate from.
+func configGetterSources(p *an.Prog, v ssa.Value) map[string]bool {
+	out := map[string]bool{}
+	seen := map[ssa.Value]bool{}
+	var walk func(v ssa.Value, d int)
+	walk = func(v ssa.Value, d int) {
+		if v == nil || seen[v] || d > 12 {
+			return
+		}
+		seen[v] = true
+		switch x := v.(type) {
+		case *ssa.Call:
+			if fo := an.CallObj(x.Common()); fo != nil && strings.HasPrefix(fo.Name(), "Get") && p.IsGenerated(fo.Pos()) {
+				out[fo.Name()] = true
+				return
+			}
+			for _, a := range an.CallArgs(x.Common()) {
+				walk(a, d+1)
+			}
+		case *ssa.UnOp:
+			if f := an.FieldOfAddr(x.X); f != nil {
+				var fns []*ssa.Function
+				if x.Parent() != nil && x.Parent().Pkg != nil {
+					fns = p.FuncsOf(x.Parent().Pkg)
+				}
+				for _, a := range p.FieldAccesses(f.Origin(), fns) {
+					if a.Kind == an.Write {
+						walk(a.Val, d+1)
+					}
+				}
+				return
+			}
+			walk(x.X, d+1)
+		case *ssa.Alloc:
+			for _, st := range p.Stores(x) {
+				walk(st.Val, d+1)
+			}
+		case *ssa.Phi:
+			for _, e := range x.Edges {
+				walk(e, d+1)
+			}
+		case *ssa.Convert:
+			walk(x.X, d+1)
+		case *ssa.ChangeType:
+			walk(x.X, d+1)
+		case *ssa.Extract:
+			walk(x.Tuple, d+1)
+		case *ssa.IndexAddr:
+			walk(x.X, d+1)
+		case *ssa.Slice:
+			walk(x.X, d+1)
+		}
+	}
+	walk(v, 0)
+	return out
+}
+
 type hmsExpect struct {
 	pkg   string
 	kinds []string
@@ -251,6 +310,42 @@ func checkHMSHandler(c *an.Check, h *ssa.Function, pkg string, kinds []string) {
 			})
 		}})
 	}
+	// provenance of the protocol filter's configuration operand: when it comes from a generated config message it must be
+	// that message's listen-protocol field (protocol_id / protocol_ids), not some other field (e.g. a *target* protocol).
+	for _, b := range h.Blocks {
+		for _, ins := range b.Instrs {
+			var cfg ssa.Value
+			switch x := ins.(type) {
+			case *ssa.BinOp:
+				if hmsKind(st0, x.X) == "protocol" && !dependsOnDir(x.Y) {
+					cfg = x.Y
+				} else if hmsKind(st0, x.Y) == "protocol" && !dependsOnDir(x.X) {
+					cfg = x.X
+				}
+			case *ssa.Call:
+				if an.IsCallTo(x, an.X("slices", "", "Contains")) && len(x.Call.Args) == 2 && hmsKind(st0, x.Call.Args[1]) == "protocol" {
+					cfg = x.Call.Args[0]
+				}
+			}
+			if cfg == nil {
+				continue
+			}
+			if k, isK := cfg.(*ssa.Const); isK && (k.Value == nil || k.Value.ExactString() == `""`) {
+				continue
+			}
+			src := configGetterSources(p, cfg)
+			var bad []string
+			for g := range src {
+				if g != "GetProtocolId" && g != "GetProtocolIds" {
+					bad = append(bad, g)
+				}
+			}
+			sort.Strings(bad)
+			c.Require(len(bad) == 0, "PROVENANCE", "stream handler filter "+pkg+" compares the protocol with its listen-protocol configuration", h, p.Pos(ins.Pos()), len(src)+1,
+				fmt.Sprintf("configuration operand originates from %v / constructor parameters", keysOf(src)),
+				fmt.Sprintf("the protocol filter compares against a value that (also) originates from config field getter(s) %v, not the listen protocol", bad))
+		}
+	}
 	c.Gate(an.GateSpec{Construct: "stream handler filter " + pkg + " offers a resolver", Fn: h, Mark: mark,
 		Sink: func(s *an.State, ins ssa.Instruction) bool {
 			ret, ok := ins.(*ssa.Return)
@@ -263,4 +358,13 @@ func init() {
 		Explain:     "Decides on SSA for every function that filters link.HandleMountedStream directives (discovered by type: takes the directive interface, calls HandleMountedStreamProtocolID, returns ([]directive.Resolver, error); the 7 anchored handlers + the CLI pipe listener must be among them): a non-nil resolver result is returned only on paths that crossed the equality edge (sticky mark, so loop/flag idioms are followed) of a comparison between the directive's protocol ID / local peer / remote peer and a configuration value that does not depend on the directive — or slices.Contains / a constant strings.HasPrefix on it is true — or the very configuration value it is compared against is known empty (the 'not configured' wildcard). Which of the three gates each handler must have is a table confirmed by reading.",
 		NotCov:      "what the configured values are at run time, and the behaviour of the controller bus in choosing among offered resolvers.",
 		Assumptions: commonAssumptions})
+}
+
+func keysOf(m map[string]bool) []string {
+	var o []string
+	for k := range m {
+		o = append(o, k)
+	}
+	sort.Strings(o)
+	return o
 }
